@@ -691,9 +691,21 @@ func (m *Model) ruleEVT45(r *Results) {
 				r.check(!onKeysOnly(c.Block()), rule, key+" shared", m.instrPos(c), "full event pushed to a feed that wants values", "a keys-only feed is given the full event (with its body)")
 				return
 			}
-			isPrivateCopy := func(v ssa.Value) bool {
+			isPrivateCopyOf := func(v ssa.Value, isShared func(ssa.Value) bool) bool {
 				al, ok := stripConv(v).(*ssa.Alloc)
 				if !ok {
+					return false
+				}
+				// the copy starts as the whole shared event (`copy := *event`), so that no field is lost
+				whole := false
+				for _, ref := range *al.Referrers() {
+					if st, ok := ref.(*ssa.Store); ok && st.Addr == ssa.Value(al) {
+						if ld, ok := stripConv(st.Val).(*ssa.UnOp); ok && ld.Op == token.MUL && isShared(ld.X) {
+							whole = true
+						}
+					}
+				}
+				if !whole {
 					return false
 				}
 				for _, ref := range *al.Referrers() {
@@ -707,6 +719,7 @@ func (m *Model) ruleEVT45(r *Results) {
 				}
 				return false
 			}
+			isPrivateCopy := func(v ssa.Value) bool { return isPrivateCopyOf(v, shared) }
 			// the event to push may be chosen by a helper that is handed the shared event
 			if hc, ok := stripConv(arg).(*ssa.Call); ok {
 				if h := hc.Common().StaticCallee(); h != nil && m.inPkg(h) && len(h.Blocks) > 0 {
@@ -732,7 +745,7 @@ func (m *Model) ruleEVT45(r *Results) {
 									}
 								}
 								r.check(!ko, rule, key+" shared", m.instrPos(ret), "full event pushed to a feed that wants values", "a keys-only feed is given the full event (with its body)")
-							case isPrivateCopy(rv):
+							case isPrivateCopyOf(rv, func(x ssa.Value) bool { return stripConv(x) == ssa.Value(hp) }):
 								nPush++
 								r.ok(rule, key+" private copy", m.instrPos(ret), "keys-only feeds get a private copy with Value cleared")
 							default:
@@ -745,7 +758,7 @@ func (m *Model) ruleEVT45(r *Results) {
 					}
 				}
 			}
-			r.check(isPrivateCopy(arg), rule, key+" private copy", m.instrPos(c), "keys-only feeds get a private copy with Value cleared", "pushed event is neither the shared event nor a private copy with Value cleared")
+			r.check(isPrivateCopy(arg), rule, key+" private copy", m.instrPos(c), "keys-only feeds get a private copy with Value cleared", "pushed event is neither the shared event nor a private copy of the WHOLE shared event with only Value cleared (a copy assembled field by field can lose a field, e.g. the revision number)")
 		})
 	}
 	fn := a.FanoutFn
@@ -851,6 +864,48 @@ func (m *Model) ruleQUEUE(r *Results) {
 		}
 	})
 	r.check(waitInLoop, rule, "pull re-tests", m.pos(pull[0].Pos()), "pull re-tests its condition in a loop around Wait", "pull does not re-test closed/empty after Wait returns")
+	// a closed queue hands out nothing: the field close() stores to ("closed" state) is tested on
+	// the way to the dequeue in pull, after the wait loop
+	{
+		var closedField *types.Var
+		for _, b := range cls[0].Blocks {
+			for _, in := range b.Instrs {
+				if st, ok := in.(*ssa.Store); ok {
+					if fa, ok := st.Addr.(*ssa.FieldAddr); ok {
+						closedField = fieldOf(fa)
+					}
+				}
+			}
+		}
+		if closedField == nil {
+			r.undecided(rule, "closed state", m.pos(cls[0].Pos()), "close stores to no field of the queue")
+		} else {
+			var deq ssa.CallInstruction
+			m.eachCall(pull[0], func(c ssa.CallInstruction) {
+				if f := c.Common().StaticCallee(); f != nil && f.Pkg != nil && f.Pkg.Pkg.Path() == "container/list" && f.Name() == "Remove" {
+					deq = c
+				}
+			})
+			tested := false
+			if deq != nil {
+				for _, ct := range controllingConds(pull[0], deq.Block()) {
+					if inCycle(ct.If.Block()) {
+						continue // the wait loop's own condition does not protect the dequeue after it
+					}
+					cd := condOf(ct.If)
+					for _, o := range []ssa.Value{cd.X, cd.Y} {
+						if o == nil {
+							continue
+						}
+						if m.readsFieldValue(o, closedField, 0) {
+							tested = true
+						}
+					}
+				}
+			}
+			r.check(deq != nil && tested, rule, "closed queue yields nothing", m.pos(pull[0].Pos()), "pull dequeues only after testing the state that close() sets", "after its wait loop, pull removes an element without testing the state that close() sets: a queue that was closed with events still queued keeps handing them out, and the feed callback keeps being invoked after the feed was ended")
+		}
+	}
 	// every method locks the queue's lock with a paired unlock on all paths
 	for _, fn := range []*ssa.Function{push[0], pull[0], cls[0]} {
 		lc := listCalls(fn)
@@ -1484,4 +1539,41 @@ func (m *Model) onlyCalledFrom(fn *ssa.Function, set map[*ssa.Function]bool, dep
 		}
 	}
 	return true
+}
+
+// readsFieldValue: the value is computed from field f (a load of it, a comparison of it, or the
+// result of a package function/method whose body reads it).
+func (m *Model) readsFieldValue(v ssa.Value, f *types.Var, depth int) bool {
+	v = stripConv(v)
+	if depth > 4 {
+		return false
+	}
+	switch x := v.(type) {
+	case *ssa.UnOp:
+		if _, g, ok := fieldLoad(x); ok && g == f {
+			return true
+		}
+		return m.readsFieldValue(x.X, f, depth+1)
+	case *ssa.BinOp:
+		return m.readsFieldValue(x.X, f, depth+1) || m.readsFieldValue(x.Y, f, depth+1)
+	case *ssa.Phi:
+		for _, e := range x.Edges {
+			if m.readsFieldValue(e, f, depth+1) {
+				return true
+			}
+		}
+	case *ssa.Call:
+		callee := x.Common().StaticCallee()
+		if callee == nil || !m.inPkg(callee) {
+			return false
+		}
+		for _, b := range callee.Blocks {
+			for _, ins := range b.Instrs {
+				if fa, ok := ins.(*ssa.FieldAddr); ok && fieldOf(fa) == f {
+					return true
+				}
+			}
+		}
+	}
+	return false
 }
